@@ -980,9 +980,12 @@ def run(tier, seed):
                                shard=max(1, per_file // per_term), extra_defs=defs_text(defs, batch["used"]))
         btasks = batch["tasks"]
         batch.update({"terms": [], "tasks": [], "used": set(), "nodes": 0, "n": batch["n"] + 1})
-        for bi in bad[:3]:
+        # a property failure found by the direct oracle is what will be reported: do not spend time on locating model differences then
+        nloc = 0 if state["nfail"] else (3 if state["ndis"] < 3 else 0)
+        for bi in bad[:nloc]:
             locate(btasks[bi])
-        state["ndis"] += sum(1 for bi in bad[3:] if JOBS[btasks[bi][0]]["claimed"])
+        state["ndis"] += sum(1 for bi in bad[nloc:] if JOBS[btasks[bi][0]]["claimed"])
+        diag["model_disagreements"] += sum(1 for bi in bad[nloc:] if not JOBS[btasks[bi][0]]["claimed"])
 
     pool = multiprocessing.get_context("fork").Pool(processes=C.NCPU)
     try:
